@@ -22,16 +22,24 @@ ID = "C14"
 PROPS = "Props/C14.v"
 EXTRACT = "extract/ExC14.v"
 OBLIGATION = "merkle-collect-history"
-THEOREMS = ["C14_inv_step", "C14_complete", "C14_idempotent", "C14_reset", "C14_reports_sound", "C14_guards_satisfiable"]
+THEOREMS = ["C14_inv_step", "C14_complete", "C14_idempotent", "C14_reset", "C14_reset_uncollects",
+            "C14_uncollected_frame", "C14_collect_reports_uncollected", "C14_reset_partial",
+            "C14_reset_partial_satisfiable", "C14_collect_early_refuted", "C14_write_force_collect",
+            "C14_force_lazy_refuted", "C14_reports_sound",
+            "C14_guards_satisfiable"]
 RULE = ("C10's histories (5-60 operations over <= 12 generic or Directory/Content nodes, DAGs with shared and "
         "structurally equal nodes) with collect / reset_collect at random nodes between mutations, reads and forced "
-        "updates, and detach / mutate-or-not / re-attach of a subtree; non-trivial = at least 2 collects and a "
+        "updates (resets at the root, at strict descendants and at shared nodes, followed later by collects from "
+        "ancestors: every node below a reset is owed to the first later collect that has it below), and detach / "
+        "mutate-or-not / re-attach of a subtree; out-of-band data writes (op W) followed by update_hash(force=True) "
+        "at a dominating node and a collect: every node below the forced node must be reported again with its new "
+        "hash (C14_write_force_collect); non-trivial = at least 2 collects and a "
         "successful mutation between two of them; distinct = distinct request line")
 TRUSTED = base.TRUSTED + ["a Python set of nodes deduplicates by (hash(node.hash), ==): modelled as 'any sub-collection "
                           "keeping one representative per class of equal-hash equal-structure nodes'"]
 ASSUMPTIONS = base.ASSUMPTIONS + ["'reported' is up to node equality (a set cannot hold two == nodes)"]
 
-WEIGHTS = {"N": 3, "S": 7, "D": 4, "U": 2, "G": 0.3, "C": 0.3, "H": 2, "F": 1.5, "E": 0.5, "M": 0.5, "L": 7, "R": 2}
+WEIGHTS = {"N": 3, "S": 7, "D": 4, "U": 3.5, "G": 0.3, "C": 0.3, "H": 2, "F": 2.5, "E": 0.5, "M": 0.5, "L": 7, "R": 2, "W": 2}
 
 
 def detach_scenario(rng, world):
@@ -55,12 +63,12 @@ def detach_scenario(rng, world):
 
 
 def gen(rng, tier):
-    n_cases = 1500 if tier == "quick" else 30000
+    n_cases = 1200 if tier == "quick" else 30000
     cases = []
     for k in range(n_cases):
         world = "generic" if k % 2 == 0 else "disk"
         nops = rng.randrange(5, 61)
-        c = base.gen_case(rng, world, nops, WEIGHTS, nscen=8, readall=(rng.random() < 0.2))
+        c = base.gen_case(rng, world, nops, WEIGHTS, nscen=12, readall=(rng.random() < 0.2))
         if rng.random() < 0.3:
             pre = detach_scenario(rng, world)
             sh = Shadow()
